@@ -174,9 +174,15 @@ def drain {σ} (sem : Sem σ) (g : Graph) : Nat → S σ → S σ
     | [] => s
     | (e, r) :: q => drain sem g n (deliver sem g { s with queue := q } e r)
 
-/-- `Composite._on_run` (fresh start, local children) -/
-def compositeRun {σ} (sem : Sem σ) (g : Graph) (fuel : Nat) (s0 : S σ) : S σ :=
+/-- the starting loop and the drain loop from a given state of the all-of triggers (what `_on_run` did
+before commit bc0a763, and what resuming a stopped round would mean) -/
+def compositeRunFrom {σ} (sem : Sem σ) (g : Graph) (fuel : Nat) (s0 : S σ) : S σ :=
   drain sem g fuel (startAll sem g s0 g.starters)
+
+/-- `Composite._on_run` (fresh start, local children): every child's `accumulate_and_run.reset()` first —
+what the all-of triggers had collected before belongs to an earlier, interrupted run (commit bc0a763) -/
+def compositeRun {σ} (sem : Sem σ) (g : Graph) (fuel : Nat) (s0 : S σ) : S σ :=
+  compositeRunFrom sem g fuel { s0 with received := fun _ => [] }
 
 /-! ### The specification: a plain queue interpreter
 
